@@ -347,7 +347,7 @@ def run(ctx, ck):
                 first = first or ('reset' if norm(ev[2]) in ('[]', 'list()') else 'store %s' % norm(ev[2])[:30])
             elif ev[0] == 'call' and isinstance(ev[1].func, ast.Attribute) and norm(ev[1].func.value) == 'self.segments':
                 first = first or ev[1].func.attr
-                if ev[1].func.attr == 'append':
+                if ev[1].func.attr in ('append', 'extend', 'insert'):
                     n_app += 1
         if first not in (None, 'reset'):
             bad = bad or first
@@ -418,32 +418,50 @@ def run(ctx, ck):
     # segment producers: one Segment per generated pair / consecutive end points, appended once, indexed by
     # the number of segments so far
     def one_segment_per_element(q, want_iter, want_ends):
+        """on every path: the Segment creations happen once per element of the wanted collection (in a
+        statement loop or as the element of a comprehension), each created segment goes into self.segments once"""
         g = m.func(q)
         from ..symx import SymExec
+
+        def base_iter(t_):
+            try:
+                e_ = ast.parse(t_, mode='eval').body
+            except SyntaxError:
+                return t_
+            while isinstance(e_, ast.Call) and isinstance(e_.func, ast.Name) and e_.func.id in ('enumerate', 'list', 'tuple', 'iter') and e_.args:
+                e_ = e_.args[0]
+            return re.sub(r'_k\d+', '_k', norm(e_))
         paths = [p_ for p_ in SymExec(ctx, g, bind_loops=True, objects=True, effects=True, max_paths=2000).run()
                  if p_.end != 'raise']
         bad = None
         n_ent = 0
         for p_ in paths:
-            ent = [t_ for k_, t_ in p_.conds if k_ == 'loop']
             cre = [ev for ev in p_.events if ev[0] == 'create' and norm(ev[2].func) == 'Segment']
-            if not ent:
-                if cre:
-                    bad = bad or 'a segment is created outside the loop'
+            skipped = [t_ for k_, t_ in p_.conds if k_ == 'loop-skipped']
+            if not cre:
+                if any(k_ == 'loop' and re.match(want_iter, base_iter(t_)) for k_, t_ in p_.conds):
+                    bad = bad or 'an element of the collection gets no segment on the path %s' % (
+                        [c_ for c_ in p_.conds if c_[0] != 'loop'][-2:],)
+                continue
+            if any(not ev[4] for ev in cre):
+                bad = bad or 'a segment is created outside the loop'
                 continue
             n_ent += 1
-            it_ = re.sub(r'_k\d+', '_k', ent[-1])
-            if not re.match(want_iter, it_):
-                bad = bad or 'iterates %s' % it_
+            its = {base_iter(ev[4][-1]) for ev in cre}
+            for it_ in its:
+                if not re.match(want_iter, it_):
+                    bad = bad or 'iterates %s' % it_
             if len(cre) != 1:
                 bad = bad or '%d segments per element' % len(cre)
                 continue
             tok, call = cre[0][1], cre[0][2]
-            apps = [ev for ev in p_.events if ev[0] == 'call' and isinstance(ev[1].func, ast.Attribute) and
-                    ev[1].func.attr == 'append' and norm(ev[1].func.value) == 'self.segments' and
-                    [norm(a_) for a_ in ev[1].args] == [tok]]
-            if len(apps) != 1:
-                bad = bad or 'the segment is appended %d times' % len(apps)
+            apps = 0
+            for ev in p_.events:
+                if ev[0] == 'call' and isinstance(ev[1], ast.Call) and isinstance(ev[1].func, ast.Attribute) and \
+                   ev[1].func.attr in ('append', 'extend') and norm(ev[1].func.value) == 'self.segments':
+                    apps += sum(1 for x_ in ast.walk(ev[1]) if isinstance(x_, ast.Name) and x_.id == tok)
+            if apps != 1:
+                bad = bad or 'the segment is appended %d times' % apps
             ends = [re.sub(r'_k\d+', '_k', norm(a_)) for a_ in call.args[:2]]
             if want_ends is not None and not all(re.match(w_, e_) for w_, e_ in zip(want_ends, ends)):
                 bad = bad or 'segment ends are %s' % ends
@@ -456,31 +474,59 @@ def run(ctx, ck):
     one_segment_per_element('mininec.Wire.compute_taper2_segments', GEN % 2, [r'.*\[_k\]\[0\]$', r'.*\[_k\]\[1\]$'])
     # consecutive points of self.segends: (segends[k], segends[k + 1])
     one_segment_per_element('mininec.Curve.compute_segments',
-                            r'^(enumerate\()?(pairwise\(self\.segends\)|zip\(self\.segends(\[:-1\])?, self\.segends\[1:\]\))\)?$',
+                            r'^(pairwise\(self\.segends\)|zip\(self\.segends(\[:-1\])?, self\.segends\[1:\]\))$',
                             [r'^self\.segends\[_k\]$', r'^self\.segends\[(_k \+ 1|1 \+ _k)\]$'])
 
     # ---------------------------------------------------------------- D2 mirror
+    # taper from the other end: what taper1 hands out for end != 0 is, as a closed sequence, the pairs of
+    # taper1(p2, p1, ..., end=0) in reverse order with the two points of every pair swapped
+    from ..symx import generator_sequences, _is_each
     t1 = m.func('taper.taper1')
-    br = [n for n in t1.body() if isinstance(n, ast.If) and norm(n.test) == 'end']
-    ok = len(br) == 1
-    why = 'no `if end:` branch'
-    if ok:
-        b = br[0].body
-        txt = [norm(s) for s in b]
-        rec = [c for c in ast.walk(br[0]) if isinstance(c, ast.Call) and isinstance(c.func, ast.Name)
-               and c.func.id == 'taper1']
-        ok = len(rec) == 1 and [norm(a) for a in rec[0].args[:2]] == ['p2', 'p1'] and \
-            norm(rec[0].args[-1]) == '0' and [norm(a) for a in rec[0].args[2:6]] == ['n', 'r', 'min_t', 'max_t']
-        loops = [x for x in b if isinstance(x, ast.For)]
-        ok = ok and len(loops) == 1 and norm(loops[0].iter).startswith('reversed(')
-        if ok:
-            y = [z for z in ast.walk(loops[0]) if isinstance(z, ast.Yield)]
-            tg = loops[0].target
-            ok = len(y) == 1 and isinstance(tg, ast.Tuple) and \
-                [norm(e) for e in y[0].value.elts] == [norm(tg.elts[1]), norm(tg.elts[0])]
-        ok = ok and isinstance(b[-1], ast.Return)
-        why = 'end != 0: %s' % txt
-    ck.ob('R-SIB.taper-mirror', 'taper.taper1|mirror', ok, t1.loc(br[0] if br else None), why)
+    pnames = list(t1.params)
+    seqs = [(c_, s_) for c_, s_ in generator_sequences(ctx, t1) if any(t_ == 'end' and b_ is True for t_, b_ in c_ if isinstance(b_, bool))]
+    ok = bool(seqs)
+    why = 'no path for end != 0' if not seqs else None
+    n_each_ = 0
+    for conds_, seq in seqs:
+        if isinstance(seq, ast.List) and not seq.elts and any(k_ == 'loop-skipped' for k_, t_ in conds_):
+            continue        # nothing to hand out
+        if not _is_each(seq):
+            ok, why = False, 'end != 0 hands out %s' % norm(seq)[:100]
+            continue
+        n_each_ += 1
+        elt, it_ = seq.args
+        src = it_
+        rev = False
+        while isinstance(src, ast.Call) and isinstance(src.func, ast.Name) and src.func.id in ('reversed', 'list', 'tuple') and len(src.args) == 1:
+            rev = rev or src.func.id == 'reversed'
+            src = src.args[0]
+        if isinstance(src, ast.Subscript) and isinstance(src.slice, ast.Slice) and src.slice.lower is None and \
+           src.slice.upper is None and norm(src.slice.step or ast.Constant(value=1)) == '-1':
+            rev, src = True, src.value
+            while isinstance(src, ast.Call) and isinstance(src.func, ast.Name) and src.func.id in ('list', 'tuple') and len(src.args) == 1:
+                src = src.args[0]
+        args_ok = False
+        if isinstance(src, ast.Call) and isinstance(src.func, ast.Name) and src.func.id == 'taper1':
+            got = {}
+            for pn_, a_ in zip(pnames, src.args):
+                got[pn_] = norm(a_)
+            for kw_ in src.keywords:
+                got[kw_.arg] = norm(kw_.value)
+            want_ = {pnames[0]: pnames[1], pnames[1]: pnames[0]}
+            for pn_ in pnames[2:]:
+                want_[pn_] = pn_
+            want_['end'] = '0'
+            dflt = t1.defaults()
+            args_ok = all(got.get(k_, norm(dflt[k_]) if k_ in dflt else None) == v_ for k_, v_ in want_.items())
+        itx = norm(it_)
+        swapped = re.sub(r'_k\d+', 'K', norm(elt)) == '(%s[K][1], %s[K][0])' % (itx, itx)
+        if not (rev and args_ok and swapped):
+            ok = False
+            why = 'end != 0 hands out each %s of %s: not the reversed, pairwise swapped taper from the other end' % (
+                re.sub(r'_k\d+', 'K', norm(elt))[:60], itx[:80])
+    ok = ok and n_each_ >= 1
+    ck.ob('R-SIB.taper-mirror', 'taper.taper1|mirror', ok, t1.loc(),
+          why or 'end != 0: reversed taper1(p2, p1, ..., 0) with swapped pairs')
     g = m.func('mininec.Wire.compute_taper1_segments')
     ok = any('end=self.segtype - 1' in norm(s) for s in g.body())
     ck.ob('R-SIB.taper-mirror', g.qual + '|end=segtype-1', ok, g.loc(), 'taper end passed as segtype - 1')
